@@ -30,6 +30,8 @@ func init() {
 				Doc: "Header order on ties: equal q keeps header order. sort.Slice/sort.Sort are not stable (only small inputs happen to be), and a non-strict insertion test reverses ties."},
 			{ID: "C05.g", Template: "T-PROV", Required: true, Run: ruleC15e,
 				Doc: "The Response the handler writes to is the one that was given the route's Produces and the request's Accept: a framework filter continues the chain with the very pair it received, never with a new wrapper (which knows neither and negotiates against nothing)."},
+			{ID: "C05.i", Template: "T-SIBLING", Required: true, Run: ruleFoldingAgreement,
+				Doc: "Where a token of Accept/Content-Type is compared for equality with a declared media type, both operands were case-folded by the same functions, or neither. Lower-casing the media ranges of the header while Produces entries are compared as declared makes a declared type with capitals unselectable by the writer although the router admits the request."},
 			{ID: "C05.h", Template: "T-SIBLING", Required: true, Run: ruleKeyAgreement,
 				Doc: "The entity-accessor registry is written and read under the same key: whatever normalisation is applied to the media type on registration must be applied on lookup. Lower-casing on registration only makes an accessor registered for a mixed-case Produces entry unreachable by the exact lookup, and the substring fallback then answers with another type's accessor."},
 		},
